@@ -21,9 +21,15 @@ fn vk_c18(action: FakeKeyAction) -> (bool, usize) {
         let _ = l.states.push(State::Custom { value: &VK_CUSTOM_VALS[0], coord: c2 });
     }
     let _ = l.states.push(State::FakeKey { keycode: VkKc::B });
+    // a repeating macro started from a virtual key is only visible as a RepeatingSequence state
+    let c3: (u8, u16) = (kani::any::<u8>() & 1, kani::any::<u16>() % 3);
+    let has_rpt: bool = kani::any();
+    if has_rpt {
+        let _ = l.states.push(State::RepeatingSequence { sequence: &kanata_keyberon::layout::verif_kani::VK_SEQ_EVENTS, coord: c3 });
+    }
     let y: u16 = kani::any();
     kani::assume(y < 3);
-    let down = (n > 0 && c0 == (1, y)) || (n > 1 && c1 == (1, y)) || (n > 2 && c2 == (1, y));
+    let down = (n > 0 && c0 == (1, y)) || (n > 1 && c1 == (1, y)) || (n > 2 && c2 == (1, y)) || (has_rpt && c3 == (1, y));
     assert!(states_has_coord(&l.states, 1, y) == down, "a virtual key is 'pressed' iff a state created at its coordinate exists");
     handle_fakekey_action(action, &mut l, 1, y);
     let first = l.queue.pop_front().map(|q: Queued| q.event());
@@ -49,7 +55,7 @@ fn vk_c18(action: FakeKeyAction) -> (bool, usize) {
 // @harness name=c18_k1_toggle prop=C18 tier=quick timeout=2400
 // @encodes handle_fakekey_action (Toggle), states_has_coord, Layout::event
 // @inst Layout<3, 2, u8> (the function is generic; kanata uses <767, 2, &&[&CustomAction]>)
-// @bounds 0..=3 states (plain key, held layer, custom action) at symbolic coordinates over 2 rows x 3 columns plus one macro-held key; symbolic virtual key column
+// @bounds 0..=3 states (plain key, held layer, custom action) and optionally a repeating-macro state at symbolic coordinates over 2 rows x 3 columns, plus one macro-held key; symbolic virtual key column
 // @assumes none beyond the bounds
 // @spec toggle queues exactly one event for the virtual key: a release iff some state was created at its coordinate, else a press
 #[kani::proof]
